@@ -1471,13 +1471,15 @@ def generate(out_path=OUT):
                 pair[k] = r
             schemas[f] = pair
     derived, stored = derived_fields(gen, schemas)
-    write_lean(out_path, gen, schemas, derived, notes, facs)
+    import gen_c09_members
+    members = gen_c09_members.classify(gen, sys.modules[__name__], inst, top)
+    write_lean(out_path, gen, schemas, derived, notes, facs, members)
     info = dict(classes=sorted(schemas), notes=sorted(set(notes)), types=gen.types, consts=gen.consts, tags=gen.tags,
                 macros={k: v for k, v in gen.defined.items()}, factories=facs,
                 prims={n: (flat_prims(p["write"]), flat_prims(p["read"])) for n, p in schemas.items()},
                 equal={n: p["write_eq_read"] for n, p in schemas.items()},
                 diff={n: first_diff(p["write"], p["read"]) for n, p in schemas.items() if not p["write_eq_read"]},
-                derived={k: v for k, v in derived.items() if k != "cellcount_locals"}, files=sorted(gen.files))
+                derived={k: v for k, v in derived.items() if k != "cellcount_locals"}, files=sorted(gen.files), members=members)
     return info
 
 
@@ -1491,7 +1493,7 @@ def strip_names(items):
     return out
 
 
-def write_lean(path, gen, schemas, derived, notes, facs):
+def write_lean(path, gen, schemas, derived, notes, facs, members=()):
     L = []
     L.append("import CMacVerif.Model.RestartCodec")
     L.append("/-! GENERATED by tools/gen_c09_schemas.py from %s/src on every run of the C09 check — do not edit.\n" % "/repo")
@@ -1538,6 +1540,16 @@ def write_lean(path, gen, schemas, derived, notes, facs):
                 fail("limiter loop bounds %r / %r in the %s are not (k *) <number of cells> / literal" % (a[3], a[4], site))
             rows.append("{ ci := %d, cj := %d, c0 := %d, ni := %d, nj := %d, value := %s }" % (a[0], a[1], a[2], int(mi.group(1) or 1), int(a[4]), lean_dexpr(ExprParser(a[5], set(), {}).parse())))
         L.append("def limiters_%s : List AffAssign := [" % site + ", ".join(rows) + "]\n")
+    kinds = {"stored": ".stored", "storedVia": ".storedVia", "stored+derived": ".storedDerived", "derived": ".derived", "transient": ".transient",
+             "rebuilt": ".rebuilt", "excluded": ".excluded", "alias": ".alias", "UNCLASSIFIED": ".unclassified"}
+    L.append("/-- EVERY data member of every restartable class (from the class definitions) and every variable of do_simulation that is\ndeclared before the time loop and used inside it, with its classification (tools/gen_c09_members.py) -/")
+    L.append("def members : List Member := [")
+    rows = []
+    for (c, m, t, k, d) in members:
+        rows.append('  ⟨"%s", "%s", %s⟩  -- %s%s' % (c, m, kinds[k], t, (": " + re.sub(r"\s+", " ", d)[:200]) if d else ""))
+    # the comma must precede the comment
+    L.append("\n".join(r.replace("⟩  --", "⟩,  --") if i + 1 < len(rows) else r for i, r in enumerate(rows)))
+    L.append("]\n")
     L.append("end CMacVerif.Gen.RestartSchemas")
     text = "\n".join(L) + "\n"
     old = open(path).read() if os.path.exists(path) else None
